@@ -27,6 +27,10 @@ def run_C06(rep, g):
 def run_C10(rep, g):
     rules.check_serialize(rep, g)
     rules.check_deserialize(rep, g)
+    if 'Serialize' in g.d['derives'] and 'Deserialize' in g.d['derives']:
+        # deserialize(serialize(v)) == v needs v to be a fixed point of the constructor: the generated sanitizer pipeline is
+        # the declared (idempotent) one, step for step, and the guards are the declared ones
+        rules.check_ctor(rep, g)
 
 
 def run_C07(rep, g):
@@ -143,10 +147,11 @@ def run_C11(rep, g):
     rules.check_from_str(rep, g)
     rules.check_serialize(rep, g)
     rules.check_deserialize(rep, g)
+    # the obtainable values are the ones the *declared* guards admit (a float declared `finite` never holds NaN, which is
+    # not equal to itself; "custom sanitizers declared idempotent" vouches for the pipeline as declared, same steps, same
+    # order): the guard program of the constructor is the declared one
+    rules.check_ctor(rep, g)
     if g.d.get('custom') is None and any(x['kind'] == 'with' for x in g.d['sanitizers']):
-        # "custom ones declared idempotent": the declaration's author vouches for the pipeline *as declared*; what remains to
-        # decide is that the generated pipeline is that one (same steps, same order) - the R-SAN clause of the constructor
-        rules.check_ctor(rep, g)
         return
     rules.check_canonical(rep, g)
 
